@@ -210,13 +210,23 @@ def synth_samples(ctx, fmt):
                         out_blocks.append(vc_block(b"ARTIST=SECOND-BLOCK-VALUE-%d" % i))
             out_blocks[-1] = bytes([out_blocks[-1][0] | 0x80]) + out_blocks[-1][1:]
             out.append(("synth:flac+%d-extra-comment-blocks" % extra, b"fLaC" + b"".join(out_blocks) + audio))
+        # STREAMINFO with field extremes (36-bit sample count above 2**32, 24-bit frame sizes, 5-bit depth): the block is
+        # parsed and re-serialised by every save
+        for total, bps in ((2 ** 36 - 1, 32), (6451200000, 24), (2 ** 32, 4)):
+            si = bytearray(base[8:8 + 34])
+            v = int.from_bytes(si[10:18], "big")
+            v = (v >> 41 << 41) | ((bps - 1) << 36) | total
+            si[10:18] = v.to_bytes(8, "big")
+            si[4:10] = b"\xff\xff\xff\xff\xff\xfe"
+            out.append(("synth:flac-streaminfo-extremes[%d]" % total, base[:8] + bytes(si) + base[42:]))
     if fmt.kind == "MP4":
         try:
             from props import c10
             lays = [c10.Layout(split=True), c10.Layout(moov_first=False, traks=["co64", "stco"], free=("before-ilst", "top-mid")),
                     c10.Layout(moov_first=True, udta="none", meta=False, ilst="none"), c10.Layout(nmoof=1, free=("after-ilst",)),
                     c10.Layout(wide=("moov", "udta", "meta", "table"), traks=["stco", "co64"]),
-                    c10.Layout(moov_first=False, wide=("moov", "udta"), udta="after", meta=False, ilst="none")]
+                    c10.Layout(moov_first=False, wide=("moov", "udta"), udta="after", meta=False, ilst="none"),
+                    c10.Layout(ilst_first=True, free=("meta-far",)), c10.Layout(zero_last=True, moov_first=False)]
             for i, lay in enumerate(lays):
                 out.append(("synth:mp4-layout-%d" % i, c10.build(lay)[0]))
         except Exception as e:      # the C10 builder is not ours: its absence must not break C02
